@@ -182,3 +182,12 @@ SPECS["C04"] = {
     "outside": "other VRs and odd-length padding of values (per-VR element encoding is not harnessed here), Implicit VR LE / Explicit VR BE instances, whole files, byte counts reported by BasicEncode::encode_primitive",
     "assumptions": ["oracle: reference PS3.5 encoder for these shapes written in kani/parser/src/c04.rs", "dictionary lookup and tracing stubbed"],
 }
+
+SPECS["C12"] = {
+    "parts": [{"engine": "m", "module": "c12"}],
+    "bounds": "every DicomTime value its constructors admit: all four precisions, hour 0-23, minute 0-59, second 0-60 (leap second), fraction of 1-6 digits with any value",
+    "outside": "text round trip of dates, times and date-times (decimal formatting with padding is not in the Engine M vocabulary), dates and date-times ranges, time zones, DICOM range text A-B; "
+               "the parsers are covered for panic-freedom only (C05)",
+    "assumptions": ["contract: chrono::NaiveTime::from_hms_micro_opt(h, m, s, us) is Some iff h < 24, m < 60, s < 60, us < 2 000 000 (chrono documentation: microseconds above 999 999 encode a leap second)",
+                    "contracts: u32::pow(10, e) as a table for e <= 9, Option::unwrap_or, OptionExt::context"],
+}
